@@ -8,6 +8,14 @@ Local Open Scope string_scope.
 
 Example result_must_be_object : child_result_must_be_object = true.
 Proof. reflexivity. Qed.
+(** [get_child_result] collects both pipes to the end, looks at the exit status first, then reads
+    the whole of stdout as one JSON document that must be an object of the strict result type:
+    the decision [classify_child] models (shape regenerated from the source) *)
+Example child_result_decision : child_result_decision_shape = true.
+Proof. reflexivity. Qed.
+(** the best-seen file is truncated before it is rewritten (one JSON document at any time) *)
+Example best_seen_write_shape : best_seen_file_is_truncated_then_written = true.
+Proof. reflexivity. Qed.
 
 (** child argv: the user arguments, then the JSON parameters, then the decimal seed *)
 Theorem argv_is_args_json_seed :
